@@ -10,12 +10,11 @@ variable {P O G B L Sc : Type}
 /-- the state of the uninterrupted run after `n` iterations -/
 def Run.U (r : Run P O G B L Sc) (n : Nat) : St P O G Sc := runRange r.ops r.lrAt r.cfg r.batch r.init 0 n
 
-/-- standing assumptions: the code as it is now, one optimiser step per iteration, a faithful
-serialisation, a fresh process starts with empty gradients -/
+/-- standing assumptions: the code as it is now, a faithful serialisation, a fresh process starts with
+empty gradients (any `gradient_steps = k`) -/
 structure Run.Ok (r : Run P O G B L Sc) : Prop where
   table : r.table = loopTable
   label : r.killLabel = Train.killLabel
-  k1 : r.cfg.k = 1
   codec : ∀ c, r.decode (r.encode c).flatten = some c
   init : r.init.grad = r.ops.zero
 
@@ -24,6 +23,18 @@ under label `t` -/
 def Run.Inv (r : Run P O G B L Sc) (d : Dir) : Prop :=
   loadLatest r.decode d = .none ∨ ∃ t : Nat, t + 1 ≤ r.total ∧ loadLatest r.decode d = .ok t (snapshot (r.U (t + 1)))
 
+/-- 'latest' (if any) is at a window boundary: its label `t` has `(t + 1) % k = 0`, i.e. nothing was pending in
+`.grad` when it was written -/
+def Run.Aligned (r : Run P O G B L Sc) (d : Dir) : Prop :=
+  ∀ t c, loadLatest r.decode d = .ok t c → (resumeStart t).toNat % r.cfg.k = 0
+
+/-- every process of the history starts from an aligned directory -/
+def Run.AlignedHist (r : Run P O G B L Sc) : List Stop → Dir → Prop
+  | [], d => r.Aligned d
+  | st :: rest, d => r.Aligned d ∧ match r.process st d with
+    | some (_, d') => r.AlignedHist rest d'
+    | none => True
+
 theorem Run.U_succ (r : Run P O G B L Sc) (h : r.Ok) (it : Nat) :
     iterT r.table r.ops r.lrAt r.cfg (r.U it) it (r.batch it) = r.U (it + 1) := by
   rw [h.table]
@@ -31,12 +42,13 @@ theorem Run.U_succ (r : Run P O G B L Sc) (h : r.Ok) (it : Nat) :
   unfold Run.U
   rw [runRange_succ, Nat.zero_add]
 
-theorem Run.U_grad (r : Run P O G B L Sc) (h : r.Ok) (n : Nat) : (r.U n).grad = r.ops.zero := by
+/-- at a window boundary nothing is pending -/
+theorem Run.U_grad (r : Run P O G B L Sc) (h : r.Ok) (n : Nat) (hn : n % r.cfg.k = 0) : (r.U n).grad = r.ops.zero := by
   cases n with
   | zero => exact h.init
   | succ n =>
     unfold Run.U
-    exact runRange_grad_zero _ _ _ _ _ 0 (n + 1) (by rw [h.k1]; exact Nat.mod_one _) (by omega)
+    exact runRange_grad_zero _ _ _ _ _ 0 (n + 1) (by simpa using hn) (by omega)
 
 theorem restore_snapshot (zero : G) (s : St P O G Sc) (h : s.grad = zero) : restore zero (snapshot s) = s := by
   cases s; simp_all [restore, snapshot]
@@ -113,23 +125,66 @@ theorem Run.loop_finish (r : Run P O G B L Sc) (h : r.Ok) (fuel it : Nat) (d : D
         exact ih _ _ (by omega) (by omega)
 
 /-- a process started on a consistent directory resumes **on** the uninterrupted trajectory -/
-theorem Run.process_eq (r : Run P O G B L Sc) (h : r.Ok) (stop : Stop) (d : Dir) (hd : r.Inv d) :
+theorem Run.process_eq (r : Run P O G B L Sc) (h : r.Ok) (stop : Stop) (d : Dir) (hd : r.Inv d)
+    (ha : r.Aligned d) :
     ∃ start, start ≤ r.total ∧ r.process stop d = some (r.loop stop r.total start (r.U start) d) := by
   unfold Run.process
   rcases hd with e | ⟨t, ht, e⟩
   · rw [e]; exact ⟨0, Nat.zero_le _, rfl⟩
-  · rw [e]
+  · have hal := ha _ _ e
+    rw [e]
     refine ⟨t + 1, ht, ?_⟩
     have : (resumeStart (t : Int)).toNat = t + 1 := by unfold resumeStart; omega
-    simp only [this, restore_snapshot _ _ (r.U_grad h (t + 1))]
+    rw [this] at hal
+    simp only [this, restore_snapshot _ _ (r.U_grad h (t + 1) hal)]
 
-theorem Run.history_inv (r : Run P O G B L Sc) (h : r.Ok) (stops : List Stop) (d : Dir) (hd : r.Inv d) :
-    ∃ d', r.history stops d = some d' ∧ r.Inv d' := by
+/-- **what a resume does in general** (aligned or not): the process continues from the uninterrupted run's state after
+iteration `t` **with an empty accumulator** -/
+theorem Run.process_start (r : Run P O G B L Sc) (stop : Stop) (d : Dir) (t : Nat)
+    (e : loadLatest r.decode d = .ok t (snapshot (r.U (t + 1)))) :
+    r.process stop d = some (r.loop stop r.total (t + 1) { r.U (t + 1) with grad := r.ops.zero } d) := by
+  unfold Run.process
+  rw [e]
+  have : (resumeStart (t : Int)).toNat = t + 1 := by unfold resumeStart; omega
+  simp only [this]
+  rfl
+
+theorem Run.history_inv (r : Run P O G B L Sc) (h : r.Ok) (stops : List Stop) (d : Dir) (hd : r.Inv d)
+    (ha : r.AlignedHist stops d) :
+    ∃ d', r.history stops d = some d' ∧ r.Inv d' ∧ r.Aligned d' := by
   induction stops generalizing d with
-  | nil => exact ⟨d, rfl, hd⟩
+  | nil => exact ⟨d, rfl, hd, ha⟩
   | cons st rest ih =>
-    obtain ⟨start, _, e⟩ := r.process_eq h st d hd
+    obtain ⟨start, _, e⟩ := r.process_eq h st d hd ha.1
+    have ha2 := ha.2
+    rw [e] at ha2
     rw [Run.history, e]
-    exact ih _ (r.loop_inv h st _ _ d hd)
+    exact ih _ (r.loop_inv h st _ _ d hd) ha2
+
+/-- for `k = 1` every directory is aligned -/
+theorem Run.aligned_of_k1 (r : Run P O G B L Sc) (hk : r.cfg.k = 1) (d : Dir) : r.Aligned d := by
+  intro t c _; rw [hk]; exact Nat.mod_one _
+
+theorem Run.alignedHist_of_k1 (r : Run P O G B L Sc) (hk : r.cfg.k = 1) (stops : List Stop) (d : Dir) :
+    r.AlignedHist stops d := by
+  induction stops generalizing d with
+  | nil => exact r.aligned_of_k1 hk d
+  | cons st rest ih =>
+    refine ⟨r.aligned_of_k1 hk d, ?_⟩
+    cases r.process st d with
+    | none => trivial
+    | some x => exact ih _
+
+/-- a SIGINT inside iteration `j ≥ 5` (reached by the process) leaves 'latest' = `j − 1`: aligned iff `j % k = 0` -/
+theorem Run.latest_after_kill (r : Run P O G B L Sc) (h : r.Ok) (fuel j : Nat) (s : St P O G Sc) (d : Dir)
+    (h5 : 5 ≤ j) (ht : j < r.total) :
+    loadLatest r.decode (r.loop (.killDuring j) (fuel + 1) j s d).2 = .ok ((j - 1 : Nat) : Int) (snapshot s) := by
+  rw [Run.loop, if_neg (by omega), if_pos rfl]
+  have hg : killGuard (j : Int) = true := by simp [killGuard]; omega
+  simp only [hg, if_true]
+  have hl : r.killLabel (j : Int) = ((j - 1 : Nat) : Int) := by
+    rw [h.label]; unfold Train.killLabel; omega
+  rw [hl]
+  exact save_then_load r.decode d (j - 1) _ _ (h.codec _)
 
 end DirectVerif.Train
